@@ -15,3 +15,4 @@ import MJ.Props.C06
 #print axioms MJ.C06.import_of_extending_template
 #print axioms MJ.C06.render_block_most_derived
 #print axioms MJ.C06.render_block_on_fresh_state
+#print axioms MJ.C06.include_ignore_missing_forgives_only_missing
